@@ -168,6 +168,19 @@ def r3_per_element(ctx):
             ctx.check(bool(outs) and all(o == 'None' for o in outs), 'down-no-early-exit', 'incoming_downstream calls event_end for every element', g.where_path(path), outs)
 
 
+def _uncanon_capture(g, t, caps):
+    """a canonical tree inside closure g: replace `<env>.N` capture projections by the captured value (trees of the parent)"""
+    if not isinstance(t, tuple) or not t:
+        return t
+    if t[0] == 'field' and str(t[2]).isdigit() and int(t[2]) < len(caps):
+        base = t[1]
+        while isinstance(base, tuple) and base and base[0] in ('deref', 'ref'):
+            base = base[1]
+        if base[0] == 'arg' and (base[1] == 1 or base[1] == g.local_name(1)):
+            return caps[int(t[2])]
+    return tuple(_uncanon_capture(g, x, caps) if isinstance(x, tuple) else x for x in t)
+
+
 def r4_handler_iff_survived(ctx):
     ctx.set_rule('C14.R4')
     P = ctx.P
@@ -175,8 +188,9 @@ def r4_handler_iff_survived(ctx):
     if not f:
         return
     execs = f.calls_to(H + '::exec')
-    if not ctx.floor('harness executions in handle_message', len(execs), 2):
+    if not ctx.floor('harness executions in handle_message', len(execs), 1):
         return
+    n_handler = 0
     for s in execs:
         arg = peel(f.expr_operand(s.args[1], s.b, 'T'))
         ck = arg[1][len('closure:'):] if arg[0] == 'agg' and arg[1].startswith('closure:') else None
@@ -184,6 +198,24 @@ def r4_handler_iff_survived(ctx):
         calls_handler = bool(g) and any(c.callee == 'des::net::module::Module::handle_message' for c in g.calls())
         atoms = [a for _, a in f.guard_atoms(s.b)]
         surv = next((a[2] for a in atoms if a[0] == 'is' and a[1][0] == 'call' and a[1][1] == PR + 'incoming_upstream'), None)
+        n_handler += 1 if calls_handler else 0
+        if calls_handler and surv is None:
+            # the survival test sits inside the harnessed closure: `exec(|| if let Some(msg) = remaining { handler.handle_message(msg) })`
+            caps = arg[2]
+            inner_ok = True
+            for c in [c for c in g.calls() if c.callee == 'des::net::module::Module::handle_message']:
+                ga = [a for _, a in g.guard_atoms(c.b)]
+                some = [a for a in ga if a[0] == 'is' and a[2] == 'Some']
+                tested = False
+                for a in some:
+                    t = resolve_captures(P, g, _uncanon_capture(g, a[1], caps))
+                    if any(x[0] == 'call' and x[1] == PR + 'incoming_upstream' for x in walk(t)):
+                        tested = True
+                inner_ok = inner_ok and tested
+            ctx.check(inner_ok, 'handler-iff-survived', "the module's handle_message runs iff the message survived the upstream pass (tested inside the harnessed closure)", s.where(), {'form': 'inner test'})
+            ok = any(any(x[0] == 'call' and x[1] == PR + 'incoming_upstream' for x in walk(c)) for c in caps)
+            ctx.check(ok, 'handler-gets-survivor', 'the handler receives the message returned by the upstream pass', s.where())
+            continue
         ctx.check((calls_handler and surv == 'Some') or (not calls_handler and surv == 'None'), 'handler-iff-survived',
                   "the module's handle_message runs iff the message survived the upstream pass", s.where(), {'calls_handler': calls_handler, 'upstream_result': surv})
         if calls_handler:
@@ -191,6 +223,7 @@ def r4_handler_iff_survived(ctx):
             caps = arg[2]
             ok = any(any(x[0] == 'call' and x[1] == PR + 'incoming_upstream' for x in walk(c)) for c in caps)
             ctx.check(ok, 'handler-gets-survivor', 'the handler receives the message returned by the upstream pass', s.where())
+    ctx.floor('harness executions that call the module handler', n_handler, 1)
 
 
 CALLERS = {
